@@ -16,6 +16,8 @@ var argPool = []string{
 	"first\nsecond ", "one\ntwo\t", "trail ", " lead", "a\nb\nlast  ",
 	// several backslashes, a backslash before n / t / r / a quote, and real escapes after an escaped backslash
 	"C:\\dir\\new", "\\d+\\t+", "a\\b\tc", "x\\y\nz\\", "\\\\n", "\\n\\t\\r\\\"", "a\\\"b\\nc", "\\", "\\\\",
+	// a sign in front: still one unquoted token
+	"+5", "+", "++x", "-1", "+a+b",
 }
 
 // GenGenericModule builds a module whose body consists of prefixed extension
